@@ -11,6 +11,7 @@ import itertools
 import os
 import shutil
 import subprocess
+import sys
 
 from vlib import core
 
@@ -111,6 +112,54 @@ def base_and_variants(args):
     return res, n
 
 
+def permset_worker(args):
+    """one PERMSET job in a fresh harness worker: kind 'record' (baseline with sorted orders, returns choice points + tree)
+       or 'deviate' (one content gets another iteration order, returns tree diff against the given baseline)"""
+    n_chr, kind, payload, scratch, wid = args
+    import json
+    from vlib import syn, run, permset
+    if not any(isinstance(f, permset._Finder) for f in sys.meta_path):
+        permset.install(core.REPO)
+    w = world(n_chr)
+    d = os.path.join(scratch, "c06_perm_%d" % wid)
+    shutil.rmtree(d, ignore_errors=True)
+    paths = syn.materialise(w, d)
+    out = os.path.join(d, "out")
+    rec_file = os.path.join(d, "choices.json")
+    if kind == "record":
+        def pre():
+            permset.Controller.record = {}
+
+        def post(code):
+            with open(rec_file, "w") as f:
+                json.dump(permset.Controller.record, f)
+        rc = run.run_isoquant(run.base_argv(paths, out, extra=EXTRA), paths["home"], os.path.join(d, "o.txt"), pre_hook=pre, post_hook=post)
+        if rc != 0:
+            msg = open(os.path.join(d, "o.txt")).read()[-400:]
+            shutil.rmtree(d, ignore_errors=True)
+            return "record", None, None, "baseline under PERMSET failed rc=%d %s" % (rc, msg)
+        tree = run.read_tree(os.path.join(out, "OUT"))
+        choices = json.load(open(rec_file))
+        shutil.rmtree(d, ignore_errors=True)
+        return "record", tree, choices, None
+    results = []
+    t0 = payload["tree"]
+    for key, perm in payload["devs"]:
+        shutil.rmtree(out, ignore_errors=True)
+
+        def pre(key=key, perm=perm):
+            permset.Controller.deviation = (key, tuple(perm))
+        rc = run.run_isoquant(run.base_argv(paths, out, extra=EXTRA), paths["home"], os.path.join(d, "o.txt"), pre_hook=pre)
+        if rc != 0:
+            results.append((key, perm, [("run", "exit %d: %s" % (rc, open(os.path.join(d, "o.txt")).read()[-300:]))]))
+            continue
+        df = diff_trees(t0, run.read_tree(os.path.join(out, "OUT")))
+        if df:
+            results.append((key, perm, df))
+    shutil.rmtree(d, ignore_errors=True)
+    return "deviate", results, len(payload["devs"]), None
+
+
 def seed_sweep(args):
     n_chr, seeds, scratch, wid = args
     from vlib import syn, run
@@ -161,6 +210,38 @@ def run(ctx):
                 ctx.violation(key, "variant %s: file %s differs from the threads=1 base run: %s" % (v, fname, what), {"variant": v, "n_chr": n_chr})
     ctx.note("%d chromosomes: %d worker schedules (all partitions stage1 x stage2), %d mode variants, %d group orders; %d runs" %
              (n_chr, len(variants), len(modes), len(gorders), nruns))
+    # ---- PERMSET: every iterated set whose order depends on the hash seed is a choice point; explore all single deviations
+    from vlib import permset
+    kind, tree_sorted, choices, err = core.pmap(permset_worker, [(n_chr, "record", None, ctx.scratch, 0), (n_chr, "record", None, ctx.scratch, 1)], jobs=2)[0]
+    nperm = 0
+    ncp = 0
+    if err:
+        ctx.violation("permset:baseline-failed", err, {})
+    else:
+        # soundness of the rewrite: with sorted set orders the outputs must equal those of the unmodified interpreter
+        base_res, _ = base_and_variants((n_chr, [], ctx.scratch, 9000))
+        devs = []
+        for key, cnt in sorted(choices.items()):
+            n = key.count(", ") + 1 if key != "[]" else 0
+            try:
+                n = len(eval(key, {"__builtins__": {}}, {})) if not ("<" in key) else n
+            except Exception:
+                pass
+            if n < 2:
+                continue
+            ncp += 1
+            for perm in permset.deviations_for(key, n):
+                devs.append((key, perm))
+        ctx.rng.shuffle(devs)
+        payloads = [{"tree": tree_sorted, "devs": c} for c in core.chunks(devs, core.NCPU)]
+        for kind, results, n, e in core.pmap(permset_worker, [(n_chr, "deviate", p, ctx.scratch, 100 + i) for i, p in enumerate(payloads)]):
+            nperm += n or 0
+            for key, perm, df in results or []:
+                for fname, what in df[:2]:
+                    ctx.violation("setorder:%s" % fname.split("OUT.")[-1],
+                                  "iteration order %s of the set %s changes %s: %s" % (list(perm), key[:120], fname, what),
+                                  {"set": key, "perm": list(perm)})
+    ctx.note("PERMSET: %d hash-order-dependent sets iterated (choice points), %d single-deviation runs" % (ncp, nperm))
     # hash-seed sweep through the real CLI (fresh interpreters)
     seeds = list(range(0, 8 if quick else 48))
     trees = {}
@@ -178,7 +259,7 @@ def run(ctx):
     ctx.coverage.update({
         "states": len(parts) * len(parts) + len(modes) + len(gorders), "transitions": nruns, "traces_validated_against_impl": nruns + len(trees),
         "schedules": len(variants), "n_chromosomes": n_chr, "mode_variants": len(modes), "group_orders": len(gorders),
-        "hash_seeds_sampled": len(trees), "exhaustive": True,
+        "hash_seeds_sampled": len(trees), "exhaustive": True, "set_order_choice_points": ncp, "set_order_deviation_runs": nperm,
         "samples": [{"stage1_partition": parts[-1], "stage2_partition": parts[1]}],
         "evaluations": nruns + len(trees), "distinct_nontrivial": len(variants),
         "rule": "state = (stage-1 partition, stage-2 partition) of chromosome tasks to workers; every partition of %d tasks is enumerated for "
